@@ -119,8 +119,14 @@ def generate(run_seed, tier):
         segs.append({"dribble": True})
     if tgt:
         segs.append({"cuts": tgt[:64]})
+    # an earlier connection in the same process (reconnect with a fresh client
+    # object): its frames must not leak into this one
+    prev = []
+    if rw.random() < 0.5:
+        gen = {"beast": wire.gen_beast_frame, "raw": wire.gen_raw_frame, "skysense": wire.gen_skysense_frame}[fmt]
+        prev = [gen(rw, 0.0) for _ in range(rw.choice([1, 2]))]
     return {"rig": NAME, "prop": PROP, "fmt": fmt, "variant": variant,
-            "frames": frames, "segs": segs}
+            "frames": frames, "segs": segs, "prev": prev}
 
 
 def _expand(seg, L):
@@ -195,6 +201,16 @@ def execute(sc, keep_log=False):
     evals = 0
     fmt, variant = sc["fmt"], sc["variant"]
     stats.c["streams.%s.%s" % (fmt, variant)] += 1
+    if sc.get("prev"):
+        # the earlier connection: another client object, whole stream in one read
+        pst = wire.serialise(fmt, sc["prev"])
+        c0 = m["tc"].TcpClient("sim", 0, fmt)
+        c0.buffer.extend(pst.data)
+        try:
+            getattr(c0, PARSERS[(fmt, variant)])()
+        except Exception:
+            pass
+        stats.c["fault.reconnect_with_fresh_client"] += 1
     stats.c["frames"] += len(sc["frames"])
     if fmt == "beast":
         stats.c["probe.stream_with_escape"] += 1 if st.escapes else 0
